@@ -82,4 +82,27 @@ Section Final.
 
   (** no shell can be ionised: everything deposited locally *)
   Definition livermore_no_shell (e_inc : T) : interaction T := Inter Absorbed n0 vzero [] e_inc.
+
+  (** LivermorePEInteractor::sample_subshell, branch E < thresh_lo (tabulated subshell
+      cross sections): shells = (binding energy, inv_cube_energy * xs(E)) from the
+      innermost; a shell whose binding energy exceeds E is skipped; the first shell at
+      which the accumulated cross section exceeds [cutoff] = u * total is selected;
+      falling through the loop selects NO shell (SubshellId{}).  The tabulated values
+      are inputs (Tier B); the skip test and the fall-through are concrete. *)
+  Fixpoint lpe_select_lo (e cutoff : T) (shells : list (T * T)) (i : nat) (xs : T) : option nat :=
+    match shells with
+    | [] => None
+    | (binding, sxs) :: r =>
+        if e <? binding then lpe_select_lo e cutoff r (S i) xs
+        else let xs' := xs + sxs in
+             if cutoff <? xs' then Some i else lpe_select_lo e cutoff r (S i) xs'
+    end.
+  (** final state of the low-energy branch (no relaxation): selected shell -> photoelectron
+      E - E_bind, deposit E_bind; no shell -> everything deposited *)
+  Definition livermore_lo (e_inc cutoff : T) (shells : list (T * T)) (edir : vec3 T) : interaction T :=
+    match lpe_select_lo e_inc cutoff shells 0 n0 with
+    | Some i => livermore_final e_inc (fst (nth i shells (n0, n0))) edir None
+    | None => livermore_no_shell e_inc
+    end.
+
 End Final.
